@@ -105,6 +105,47 @@ class Toolchain:
             return False, "linking failed: " + p.stderr.decode("utf-8", "replace")[-2000:]
         return True, err
 
+    def compile_link_many(self, src, outs, backend, gc=None, timeout=900, env=None):
+        """One compilation (fast compiler -> assembly -> object), linked once per entry of `outs`
+        ({runtime lib dir: executable path}).  Returns (ok, message)."""
+        e = dict(os.environ)
+        e["RUST_BACKTRACE"] = "0"
+        e["DORA_FLAGS"] = "--gc-worker 1"
+        if env:
+            e.update(env)
+        first = next(iter(outs.values()))
+        cmd = [os.path.join(self.fastdir or self.bindir, "dora"), "compile", "-S", src, "-o", first + ".asm"]
+        if backend == "cannon":
+            cmd.append("--cannon")
+        if gc:
+            cmd.append("--gc=%s" % gc)
+        try:
+            p = run_group(cmd, timeout, env=e, cwd=os.path.dirname(src))
+        except subprocess.TimeoutExpired:
+            return False, "compile timeout"
+        err = p.stderr.decode("utf-8", "replace") + p.stdout.decode("utf-8", "replace")
+        if p.returncode != 0:
+            return False, err
+        asm = first + ".s"
+        if not os.path.exists(asm):
+            asm = os.path.splitext(first + ".asm")[0] + ".s"
+        obj = first + ".o"
+        p = subprocess.run(["gcc", "-c", asm, "-o", obj], stdout=subprocess.PIPE, stderr=subprocess.PIPE)
+        if p.returncode != 0:
+            return False, "assembling failed: " + p.stderr.decode("utf-8", "replace")[-2000:]
+        ok, msg = True, err
+        for libdir, out in outs.items():
+            p = subprocess.run(["gcc", obj, os.path.join(libdir, "libdora_startup.a"), os.path.join(libdir, "libdora_runtime.a"),
+                                "-Wl,-x", "-lpthread", "-ldl", "-lm", "-o", out], stdout=subprocess.PIPE, stderr=subprocess.PIPE)
+            if p.returncode != 0:
+                ok, msg = False, "linking failed: " + p.stderr.decode("utf-8", "replace")[-2000:]
+        for f in (asm, obj):
+            try:
+                os.remove(f)
+            except OSError:
+                pass
+        return ok, msg
+
     def compile_direct(self, src, out, backend, gc=None, extra=(), timeout=900, env=None):
         cmd = [self.dora, "compile", src, "-o", out]
         if backend == "cannon":
